@@ -284,4 +284,81 @@ theorem adjustLower_chainT (combine : Nat → Word → Nat) (N : Nat) (caps : Na
     rw [hchl] at h3
     exact ⟨markChain true refs ar s3, by rw [hfb]; rfl, hmark _ _ h3⟩
 
+/-- a line with a blank chain under `MaxRestBuild`, up to and including `AdjustLower`: insertion, `FindLower` (blanks
+appended), the blank probabilities with `rest = prob`, the marks with the chained `longerRest` — as key-level updates.
+`MarkLower` below the basis (`markLower_chain`) and `activate` follow on the resulting `StP`. -/
+theorem addLine_chainT_adjust (combine : Nat → Word → Nat) (a : Arpa) (u0 : List W) (N : Nat) (caps : Nat → Nat)
+    (S : List Key) (s : St) (want0 : Key → W) (h : StP combine N caps u0.length s (keysOf S) want0) (si : SInv a S)
+    (p : Key) (e : Entry) (lc : LC combine a u0 N caps S p e) (b L : Nat) (hb : 1 ≤ b) (hL : 1 ≤ L) (hpl : p.length = b + L + 1)
+    (hbasis : b = 1 ∨ p.take b ∈ S) (hmiss : ∀ j, b < j → j ≤ b + L → p.take j ∉ S)
+    (hcapn : (keysOf S (b + L + 1)).length + 1 < caps (b + L + 1))
+    (hcapj : ∀ j, b < j → j ≤ b + L → (keysOf S j).length + 1 < caps j) :
+    ∃ s3 Ks' want1,
+      (insPhase combine N s p e >>= fun s1 => findLower combine p (p.length - 2) s1 [] >>= fun r =>
+        adjustLower combine true (lineW e).rest p p.length r.2 r.1) = .ok s3 ∧
+      (∀ m, Ks' m = if b < m ∧ m ≤ b + L then keysOf (S ++ [p]) m ++ [p.take m] else keysOf (S ++ [p]) m) ∧
+      (∀ k, want1 k = if b < k.length ∧ k.length ≤ b + L ∧ k = p.take k.length then blankW else updW want0 p (lineW e) k) ∧
+      StP combine N caps u0.length s3 Ks'
+        (applyUpd (applyUpd want1 (fillUsT want1 p L b (-(want1 (p.take b)).mag)))
+          (markUsT (applyUpd want1 (fillUsT want1 p L b (-(want1 (p.take b)).mag))) (chainKeys p b L) (lineW e).rest)) := by
+  have hnN : b + L + 1 ≤ N := by rw [← hpl]; exact lc.nN
+  have hfreshp := lc.fresh p (Or.inr rfl)
+  have hpS : p ∉ S := fun hp => hfreshp p ((mem_keysOf S _ p).mpr ⟨hp, rfl⟩) rfl
+  obtain ⟨s1, hins, h1a⟩ := stP_insert h p e lc.n2 lc.nN (fun hm => hpS (keysOf_mem S _ p hm)) hfreshp (by rw [hpl]; exact hcapn)
+  have h1 : StP combine N caps u0.length s1 (keysOf (S ++ [p])) (updW want0 p (lineW e)) := by
+    refine stP_congr h1a (fun m => ?_) (fun _ => rfl)
+    by_cases hm : m = p.length
+    · rw [if_pos hm, hm, keysOf_append_same S p _ rfl]
+    · rw [if_neg hm, keysOf_append_other S p m (fun he => hm he.symm)]
+  have hK0 : ∀ j, j ≤ b + L → keysOf (S ++ [p]) j = keysOf S j := fun j hj => keysOf_append_other S p j (by omega)
+  have hx : p.headD 0 < u0.length := by
+    cases p with
+    | nil => simp at hpl
+    | cons x xs => exact lc.words x (by simp)
+  obtain ⟨s2, refs, Ks1, want1, hfl, h2, hKs1, hw1, hrl, hden⟩ := findLower_chain combine N caps u0.length p b hb (b + L - 1) s1 _ _ [] h1
+    (by omega) (by omega) (by omega)
+    (by rcases hbasis with hb1 | hb1
+        · exact Or.inl hb1
+        · right
+          have hbl : b ≤ p.length := by omega
+          rw [hK0 b (by omega)]; exact (mem_keysOf S b _).mpr ⟨hb1, by simp [hbl]⟩)
+    hx
+    (by intro j hj1 hj2
+        have hjl : (p.take j).length = j := by simp; omega
+        rw [hK0 j (by omega)]
+        refine ⟨fun hm => hmiss j hj1 (by omega) (keysOf_mem S j _ hm), ?_, hcapj j hj1 (by omega)⟩
+        have := lc.fresh (p.take j) (Or.inl (mem_missing_of_not_mem si p (p.length - 1) (by omega) j (by omega) (by omega)
+          (hmiss j hj1 (by omega))))
+        rw [hjl] at this; exact this)
+  have hf1 : b + L - 1 + 1 = b + L := by omega
+  simp only [hf1] at hKs1 hw1
+  have hc1 : p.drop 1 ∈ S := lc.ctx (by omega)
+  have hctxS : ∀ j, 2 ≤ j → j ≤ b + L → (p.drop 1).take j ∈ S := fun j hj2 hjl =>
+    si.take_mem _ hc1 (b + L - j) j (by rw [List.length_drop]; omega) hj2
+  obtain ⟨s3, hadj, h3⟩ := adjustLower_chainT combine N caps u0.length p Ks1 b L hb hL hnN (by omega) s2 want1 h2 refs (by omega)
+    (by intro i hi
+        have := hden i hi
+        rw [show b + L - 1 + 1 - i = b + L - i by omega] at this; exact this)
+    (by intro j hj2 hbj hjl
+        rw [hKs1 j]
+        apply mem_ite_append
+        rw [hK0 j (by omega)]
+        exact (mem_keysOf S j _).mpr ⟨hctxS j hj2 (by omega), by rw [List.length_take, List.length_drop]; omega⟩)
+    (by intro hb1
+        match p, hpl, lc.words with
+        | x :: y :: rest, _, hw => exact ⟨by simp, hw y (by simp)⟩
+        | [_], hpl, _ => simp at hpl; omega
+        | [], hpl, _ => simp at hpl)
+    (by intro j j' hbj hjl hbj' hjl' he
+        have hl := congrArg List.length he
+        rw [List.length_take, List.length_take, List.length_drop] at hl
+        have hjj : j = j' := by omega
+        subst hjj
+        exact hmiss j hbj' hjl' (he ▸ hctxS j (by omega) (by omega)))
+    (lineW e).rest
+  refine ⟨s3, Ks1, want1, ?_, hKs1, hw1, h3⟩
+  rw [hins, hpl]
+  have he2 : b + L + 1 - 2 = b + L - 1 := by omega
+  simp only [bind, Except.bind, he2, hfl, List.nil_append, hadj]
+
 end KV.ProbingBuild
